@@ -423,7 +423,11 @@ impl TryFrom<Option<&SubtypeElements>> for PerVisibleRangeConstraints {
                 subtype,
                 extensible: _,
             }) => per_visible_range_constraints(
-                matches!(subtype, ASN1Type::Integer(_)),
+                // a contained type given by reference may well be an INTEGER type: no lower bound of 0
+                matches!(
+                    subtype,
+                    ASN1Type::Integer(_) | ASN1Type::ElsewhereDeclaredType(_)
+                ),
                 subtype.constraints(),
             ),
             x => {
